@@ -412,6 +412,7 @@ int reb_simulation_remove_particle(struct reb_simulation* const r, int index, in
         if(r->free_particle_ap){
             r->free_particle_ap(&r->particles[index]);
         }
+        reb_tree_delete(r); // the only leaf referred to this particle
 		reb_simulation_warning(r, "Last particle removed.");
 		return 1;
 	}
